@@ -51,3 +51,4 @@ pub fn c04_gauge_value_update_body(vbits: u64, ibits: u64, which: u8) {
 fn c04_gauge_value_update() {
     c04_gauge_value_update_body(kani::any(), kani::any(), kani::any());
 }
+
